@@ -127,7 +127,14 @@ def gen_case(rng, widen, thorough):
                 "clip": rng.choice([0.2, 0.1, 0.3, 0.05]), "clip_kind": rng.weighted([("const", 3), ("affine", 1)]),
                 "clip_vf": rng.weighted([(None, 4), (0.05, 2), (0.2, 2), (1.0, 1)]),
                 "clip_vf_kind": rng.weighted([("const", 3), ("affine", 1)]),
+                # KL early stopping: a train() call may leave its last minibatch unapplied; the NEXT train() call must
+                # still apply exactly the gradient of its own first minibatch (seeded change C07-h)
+                "target_kl": rng.weighted([(None, 5), (1e-4, 2), (1e-3, 2), (1e-2, 1)]),
             })
+            if case["target_kl"] is not None:
+                case["n_epochs"] = rng.randint(2, 4)
+                case["rollouts"] = rng.randint(3, 4)
+                case["checked"] = case["rollouts"]   # every train() call is checked: the one after an early stop matters
         else:
             n_steps = rng.randint(1, 8)
             if n_steps * case["n_envs"] < 2:
@@ -301,7 +308,7 @@ def build(case):
                     clip_range=make_schedule(case["clip_kind"], case["clip"], case["clip"] / 4),
                     clip_range_vf=None if case["clip_vf"] is None else make_schedule(case["clip_vf_kind"], case["clip_vf"], case["clip_vf"] / 4),
                     normalize_advantage=case["normalize"], ent_coef=case["ent_coef"], vf_coef=case["vf_coef"],
-                    max_grad_norm=case["max_grad_norm"], policy_kwargs=pk, **sde, **kw)
+                    max_grad_norm=case["max_grad_norm"], policy_kwargs=pk, target_kl=case.get("target_kl"), **sde, **kw)
     elif algo == "a2c":
         m = sb3.A2C(n_steps=case["n_steps"], gae_lambda=case["gae_lambda"], normalize_advantage=case["normalize"],
                     ent_coef=case["ent_coef"], vf_coef=case["vf_coef"], max_grad_norm=case["max_grad_norm"],
@@ -625,7 +632,13 @@ def pg_checks(ctx, case, rec, tr):
     evs = tr["events"]
     checks = []
     i = 0
+    kl_stopped = False
     while i < len(evs):
+        if evs[i]["ev"] == "batch" and i + 1 == len(evs) and algo == "ppo" and case.get("target_kl") is not None:
+            # the minibatch whose KL estimate ended the call: drawn, not applied
+            kl_stopped = True
+            ctx.report.count("ppo_kl_early_stop")
+            break
         if evs[i]["ev"] != "batch" or i + 1 >= len(evs) or evs[i + 1]["ev"] != "step":
             return None, {"why": "expected (minibatch, optimizer step) pairs", "at": i,
                           "events": [e["ev"] for e in evs][:12]}
@@ -708,8 +721,8 @@ def pg_checks(ctx, case, rec, tr):
         want = per_epoch * case["n_epochs"]
     else:
         want = 1
-    if len(checks) != want:
-        return None, {"why": "number of optimizer steps", "got": len(checks), "expected": want}
+    if (len(checks) >= want) if kl_stopped else (len(checks) != want):
+        return None, {"why": "number of optimizer steps", "got": len(checks), "expected": want, "kl_stopped": kl_stopped}
     # logged clip range (the only place the scheduled clip range is observable)
     if algo == "ppo" and "train/clip_range" in tr["logged"]:
         if float(tr["logged"]["train/clip_range"]) != clip:
